@@ -278,6 +278,16 @@ func genProbe(t *rapid.T, g *gtree, vec string, plain bool) Probe {
 					pos = join(pos, c)
 					known = g.kind[pos] == "d"
 					shapes = append(shapes, "child")
+					if g.kind[pos] == "l" && rapid.Bool().Draw(t, "through-link") {
+						// up again through an (inward) link: the host resolves
+						// ".." from where the link points, not from where it is
+						k := rapid.IntRange(1, p.Depth+3).Draw(t, "k")
+						for j := 0; j < k && len(p.Names) < 16; j++ {
+							p.Names = append(p.Names, "..")
+							shapes = append(shapes, "dotdot-after-link")
+							i++
+						}
+					}
 					continue
 				}
 			}
@@ -344,12 +354,8 @@ func genProbe(t *rapid.T, g *gtree, vec string, plain bool) Probe {
 		n, sh := name(p.Depth)
 		p.Names, p.Shape = []string{n}, sh
 	}
-	if p.Prev {
-		// the depth of the kept fid is not known to the generator
-		p.Depth = 0
-	}
 	// a listed finding is steered around three times out of four
-	if id := findingOf(vec); hx.IsKnown(id) && (probeClimbs(&p) || p.Prev && anyDotDot(p.Names)) {
+	if id := findingOf(vec); hx.IsKnown(id) && (probeClimbs(&p, false) || p.Prev && anyDotDot(p.Names)) {
 		if rapid.IntRange(0, 3).Draw(t, "keep-known") != 0 {
 			hx.Excluded(id)
 			for i := range p.Names {
